@@ -7,26 +7,26 @@ HOST = ALLF | {"hostile"}
 # per property: model-checking configs (quick, with thorough overrides), simulation sources, random profiles
 PLAN = {
     "C01": dict(
-        mc=[("MC_Core.cfg", {"MaxMsgs": 6}), ("MC_Remote.cfg", {"MaxActs": 3, "MaxMsgs": 5})],
+        mc=[("MC_Core.cfg", {"MaxMsgs": 6}), ("MC_Remote.cfg", {"MaxMsgs": 5})],
         sim=[("MC_Core.cfg", [1], 1, {"MaxActs": 5, "MaxMsgs": 12, "MaxDepth": 4, "MaxBlocks": 4,
                                        "Feat": '{"finish", "task", "alog", "ctx", "run", "succ", "typed", "tb", "remote", "ext"}'})],
         profiles=[dict(feat=ALLF, ndest=1, init=[1], maxlen=40, close=0.8, w_fin_ctx=0.0, shuffle=2),
                   dict(feat=ALLF | {"spawn"}, nctx=3, ndest=2, init=[1, 2], maxlen=40, close=0.8, w_fin_ctx=0.0)]),
     "C02": dict(
-        mc=[("MC_Core.cfg", {"MaxMsgs": 6}), ("MC_Faults.cfg", {"MaxMsgs": 5, "MaxActs": 3}), ("MC_Conc.cfg", {"MaxMsgs": 5})],
+        mc=[("MC_Core.cfg", {"MaxMsgs": 6}), ("MC_Faults.cfg", {"MaxMsgs": 5}), ("MC_Conc.cfg", {"MaxMsgs": 5})],
         expect=[("MC_F2.cfg", "C02_EndIsLast_Strict")],
         sim=[("MC_Faults.cfg", [1, 2, 3], 3, {"NDest": 3, "MaxActs": 4, "MaxMsgs": 9, "MaxFaults": 4, "MaxDepth": 3, "MaxBlocks": 3,
                                               "InitDests": "D123", "Feat": '{"finish", "ctx", "run", "dfault", "task", "alog"}'})],
         profiles=[dict(feat={"task", "finish", "ctx", "run", "alog", "tb", "remote", "spawn", "ext"}, nctx=3, ndest=3, init=[1, 2, 3],
                        dfault=0.2, maxlen=40)]),
     "C03": dict(
-        mc=[("MC_Core.cfg", {"MaxMsgs": 6}), ("MC_Succ.cfg", {"MaxActs": 3, "MaxMsgs": 5})],
+        mc=[("MC_Core.cfg", {"MaxMsgs": 6}), ("MC_Succ.cfg", {"MaxMsgs": 5})],
         sim=[("MC_Succ.cfg", [1], 1, {"MaxActs": 4, "MaxMsgs": 10, "MaxDepth": 3, "MaxBlocks": 4,
                                        "Feat": '{"finish", "succ", "ext", "ctx", "run", "typed", "task"}'})],
         profiles=[dict(feat={"finish", "succ", "ext", "ctx", "run", "typed", "task", "alog"}, ndest=2, init=[1, 2], maxlen=40,
                        weights={"Exit": 4.0, "Finish": 1.0})]),
     "C04": dict(
-        mc=[("MC_Scope.cfg", {"MaxActs": 3, "MaxMsgs": 4, "MaxBlocks": 4}), ("MC_Core.cfg", {}), ("MC_Abort.cfg", {"MaxMsgs": 5})],
+        mc=[("MC_Scope.cfg", {"MaxActs": 3, "MaxMsgs": 4, "MaxBlocks": 4}), ("MC_Core.cfg", {}), ("MC_Abort.cfg", {"MaxMsgs": 4})],
         sim=[("MC_Scope.cfg", [1], 1, {"MaxActs": 4, "MaxMsgs": 8, "MaxBlocks": 6, "MaxDepth": 4, "Feat": '{"finish", "ctx", "run", "task", "ext"}'})],
         profiles=[dict(feat={"finish", "ctx", "run", "task", "ext"}, ndest=1, init=[1], maxlen=45, maxblocks=10,
                        weights={"EnterCtx": 1.5, "EnterRun": 1.5, "EnterWith": 2.0, "Exit": 2.5}),
@@ -41,7 +41,7 @@ PLAN = {
                   dict(feat={"spawn", "ctx", "run"}, nctx=4, ndest=1, init=[1], maxlen=45, w_fin_ctx=0.6,
                        weights={"Spawn": 5.0, "EnterCtx": 3.0, "EnterRun": 3.0, "StartAction": 0.7, "EnterWith": 0.6, "Exit": 2.0, "Log": 1.0})]),
     "C06": dict(
-        mc=[("MC_Remote.cfg", {"MaxActs": 3, "MaxMsgs": 5})],
+        mc=[("MC_Remote.cfg", {"MaxMsgs": 5})],
         sim=[("MC_Remote.cfg", [1], 1, {"NCtx": 3, "MaxActs": 5, "MaxMsgs": 10, "MaxIds": 3, "MaxDepth": 3, "MaxBlocks": 3,
                                          "Feat": '{"remote", "spawn", "finish", "ctx", "preserve"}'})],
         profiles=[dict(feat={"remote", "spawn", "finish", "ctx", "task", "preserve"}, nctx=4, ndest=1, init=[1], maxlen=45, shuffle=3, w_fin_ctx=0.0,
@@ -67,7 +67,7 @@ PLAN = {
                        weights={"AddDests": 1.0})],
         extra="c12_concurrent"),
     "C13": dict(
-        mc=[("MC_Typed.cfg", {"MaxMsgs": 5, "MaxActs": 3})],
+        mc=[("MC_Typed.cfg", {"MaxMsgs": 5})],
         sim=[("MC_Typed.cfg", [1], 1, {"MaxActs": 4, "MaxMsgs": 9, "MaxFaults": 4, "MaxBlocks": 3, "Feat": '{"typed", "sfault", "succ", "finish", "ctx", "task"}'})],
         profiles=[dict(feat={"typed", "succ", "finish", "ctx", "task", "run"}, ndest=2, init=[1, 2], sfault=0.35, maxlen=40,
                        weights={"StartActionT": 3.0, "LogM": 3.0})]),
